@@ -173,6 +173,23 @@ func (e *Engine) opBatch(c *cursor) *Violation {
 	if badRel != "" && why == "" {
 		why = badRel
 	}
+	if ill && why == "" && len(matched) > 0 && c.n(4) == 0 &&
+		(op.Variant == "Batch.Add" || op.Variant == "Batch.Remove" || op.Variant == "Batch.Exchange") {
+		// an ID listed twice (sometimes in a list longer than a machine word has bits): refused at the first table
+		long := c.n(3) == 0
+		dupl := func(l []int) []int {
+			l = append(append([]int{}, l...), l[c.n(len(l))])
+			for n := 33 + c.n(40); long && len(l) < n; {
+				l = append(l, l[c.n(len(l))])
+			}
+			return l
+		}
+		if len(op.Rem) > 0 && (len(op.Add) == 0 || c.n(2) == 0) {
+			op.Rem, why = dupl(op.Rem), "dup-rem"
+		} else if len(op.Add) > 0 {
+			op.Add, why = dupl(op.Add), "dup-add"
+		}
+	}
 	if op.HasTgt && !e.M.TargetOK(op.Target) {
 		if len(matched) == 0 && op.Variant == "Relations.ExchangeBatch" {
 			op.Target = ecs.Entity{} // nothing would be assigned: outcome is not pinned down by the documentation
